@@ -74,7 +74,7 @@ fn prim_tlv(tag: u8, c: &[u8]) -> Vec<u8> { let mut v = vec![tag]; v.extend(ref_
 
 /// The octets `b` cut at random places into a random tree of segments: nested constructed segments
 /// (definite or indefinite) may be followed by further segments at every level.
-fn split_os(rng: &mut Rng, b: &[u8], depth: u32) -> Os {
+pub fn split_os(rng: &mut Rng, b: &[u8], depth: u32) -> Os {
     let k = rng.range(1, 4) as usize;
     let mut cuts: Vec<usize> = (0..k - 1).map(|_| rng.below(b.len() as u64 + 1) as usize).collect();
     cuts.push(0); cuts.push(b.len()); cuts.sort();
